@@ -71,6 +71,10 @@ type L1 struct {
 	// Speculate: run every transaction first on a throw-away branch (as CheckTx / simulation does on a real
 	// node) before delivering it; process-local caches that do not roll back with the store become visible.
 	Speculate bool
+	// Shadow, when set, is called before every transaction with a throw-away branch of the current state; whatever
+	// it executes there (other transactions, block boundaries, queries) is discarded and must leave no trace.
+	Shadow   func(br *L1)
+	isShadow bool
 }
 
 // PermKeeper is an in-store stand-in for initia's ibcperm keeper.
@@ -259,12 +263,36 @@ func fund(ctx sdk.Context, bk bankkeeper.BaseKeeper, addr sdk.AccAddress, coins 
 }
 
 // Deliver runs one transaction made of msgs with baseapp semantics.
+func (c *L1) countShadow(r Result) {
+	if c.isShadow {
+		if r.Class == OK {
+			ShadowStats.TxOK.Add(1)
+		} else {
+			ShadowStats.TxRejected.Add(1)
+		}
+	}
+}
+
+func (c *L1) runShadow() {
+	if c.Shadow == nil {
+		return
+	}
+	br := c.Branch()
+	br.Shadow, br.Speculate, br.T, br.isShadow = nil, false, nil, true
+	ShadowStats.Scripts.Add(1)
+	defer func() { _ = recover() }()
+	c.Shadow(br)
+}
+
 func (c *L1) Deliver(msgs ...sdk.Msg) Result {
+	c.runShadow()
 	if c.Speculate {
+		ShadowStats.Speculated.Add(1)
 		spec, _ := c.Ctx.CacheContext()
 		_ = deliver(spec, c.Router, 0, msgs...)
 	}
 	r := deliver(c.Ctx, c.Router, 0, msgs...)
+	c.countShadow(r)
 	c.T.AddResult(msgs, r)
 	return r
 }
